@@ -3,7 +3,7 @@ import typing
 
 from .deserialize import Boc, NullCell
 from .exotic import LevelMask, CellTypes
-from .tvm_bitarray import TvmBitarray, BitarrayLike
+from .tvm_bitarray import TvmBitarray, BitarrayLike, bitarray
 from ..crypto.crc import crc32c
 
 
@@ -96,11 +96,8 @@ class Cell(NullCell):
         return self._depths[hash_index]
 
     def get_data_bytes(self) -> bytes:
-        if isinstance(self.bits, TvmBitarray):
-            #  cause we have max size in TvmBitarray
-            result = self.bits.to_bitarray()
-        else:
-            result = self.bits
+        #  copy: TvmBitarray has a max size, and a caller's plain bitarray must not be padded in place
+        result = bitarray(self.bits)
         if len(result) % 8:
             result.append(1)
             result.fill()
